@@ -159,7 +159,15 @@ def check_conversion(rep, pre, act, post, rng, work):
             elif to_t:
                 dat.convert_to_TOUGH2(warn=False, MP=act["mp"])
             else:
-                dat.convert_to_AUTOUGH2(warn=False, MP=act["mp"])
+                # the EOS asked for is the one the converted model names, whatever its MULTI section said before
+                want_eos = rng.choice(["EW", "EWC", "EWAV"])
+                if dat.multi and rng.random() < 0.5:
+                    dat.multi["eos"] = "EW"
+                dat.convert_to_AUTOUGH2(warn=False, MP=act["mp"], eos=want_eos)
+                if not dat.simulator.strip().endswith(want_eos) or (dat.multi and dat.multi.get("eos") != want_eos):
+                    det["requested_eos"], det["simulator"], det["multi_eos"] = want_eos, dat.simulator, (dat.multi or {}).get("eos")
+                    rep.violation(key + ":requested-eos", "P1_declares_flavour", det)
+                    return
     except Exception as e:
         det["error"] = repr(e)
         rep.violation(key + ":raises", "P_conversion_completes", det)
@@ -309,7 +317,14 @@ def export_checks(rep, rng, quick):
         want_eos = c["eos"]
         try:
             with core.quiet():
-                j = dat.json(geo, "mesh.exo", eos=(None if c["eosarg"] == "none" else c["eosarg"]))
+                geo_x = geo
+                if natm == 1 and rng.random() < 0.4:
+                    # the same mesh without atmosphere blocks: the grid's atmosphere block is then a boundary block listed first,
+                    # and the grid's block order is no longer the exported geometry's
+                    with core.quiet():
+                        geo_x = mulgrids.mulgrid().rectangular([10.0] * ncols, [10.0], [5.0], atmos_type=2, block_order=order)
+                    det["exported_with_geometry_of_atmosphere_type"] = 2
+                j = dat.json(geo_x, "mesh.exo", eos=(None if c["eosarg"] == "none" else c["eosarg"]))
         except Exception as e:
             if want_eos == "none" and "EOS not detected" in str(e):
                 continue
